@@ -7,6 +7,7 @@ import (
 	"context"
 	"encoding/json"
 	"fmt"
+	"regexp"
 	"sort"
 	"strings"
 
@@ -104,6 +105,7 @@ func runFED08(r *core.Run) {
 	base := r.Strategy
 	var first fedSummary
 	maxInfl := 0
+	lastBody := ""
 	for k := 0; k < K; k++ {
 		switch k % 4 {
 		case 0:
@@ -142,6 +144,7 @@ func runFED08(r *core.Run) {
 			return
 		}
 		s := e.summarize(x, e.reqs)
+		lastBody = x.w.body()
 		shape := sharedKeyShape(op.Query)
 		if shape == "" && planHasDependencyCycle(x.w.body()) {
 			shape = "-plan-with-cyclic-fetch-dependencies"
@@ -172,8 +175,160 @@ func runFED08(r *core.Run) {
 	if len(first.reqs) >= 3 {
 		r.Probe("three_or_more_fetches")
 	}
+	if r.Flag("nohardfailure") == "" {
+		e.fed08HardFailure(r, eng, op, lastBody)
+	}
 	cancel()
 	r.Drain(50)
+}
+
+// planFetch is one fetch of the query plan the engine reports in the response extensions.
+type planFetch struct {
+	id   int
+	deps []int
+	key  string // subgraph name (the plan in the extensions carries no query text)
+}
+
+func planFetches(body string) []planFetch {
+	var resp struct {
+		Extensions struct {
+			QueryPlan json.RawMessage `json:"queryPlan"`
+		} `json:"extensions"`
+	}
+	if json.Unmarshal([]byte(body), &resp) != nil || len(resp.Extensions.QueryPlan) == 0 {
+		return nil
+	}
+	type node struct {
+		Children []*node `json:"children"`
+		Fetch    *struct {
+			FetchID      int    `json:"fetchId"`
+			DependsOn    []int  `json:"dependsOnFetchIds"`
+			SubgraphName string `json:"subgraphName"`
+		} `json:"fetch"`
+	}
+	var root node
+	if json.Unmarshal(resp.Extensions.QueryPlan, &root) != nil {
+		return nil
+	}
+	var out []planFetch
+	var walk func(n *node)
+	walk = func(n *node) {
+		if n.Fetch != nil {
+			out = append(out, planFetch{id: n.Fetch.FetchID, deps: n.Fetch.DependsOn, key: n.Fetch.SubgraphName})
+		}
+		for _, c := range n.Children {
+			walk(c)
+		}
+	}
+	walk(&root)
+	return out
+}
+
+// fed08HardFailure: one entity request gets an answer the loader cannot merge (a __typename that is
+// a number where the response tree holds a string). The loader fails the whole request with
+// ErrMergeResult; the failed fetch is never merged, so no request whose fetch depends on it (by
+// the plan's own dependency edges) may be issued once that answer was handed over. The plan in
+// the extensions names the subgraph of each fetch but not its query, so a request is attributed to
+// a fetch only when its subgraph has exactly one fetch in the plan; anything else is not judged.
+func (e *fedEnv) fed08HardFailure(r *core.Run, eng *engine.ExecutionEngine, op *fedOp, planBody string) {
+	const prop = "C08"
+	fetches := planFetches(planBody)
+	if len(fetches) < 2 || planHasDependencyCycle(planBody) || sharedKeyShape(op.Query) != "" {
+		return // the last two: known planner defects that make the dependency edges meaningless
+	}
+	byKey := map[string][]int{}
+	deps := map[int][]int{}
+	for _, f := range fetches {
+		byKey[f.key] = append(byKey[f.key], f.id)
+		deps[f.id] = append(deps[f.id], f.deps...)
+	}
+	fetchOf := func(q *fedRequest) int {
+		ids := byKey[fmt.Sprintf("s%d", q.sub)]
+		if len(ids) != 1 {
+			return -1
+		}
+		return ids[0]
+	}
+	var dependsOn func(g, f int, seen map[int]bool) bool
+	dependsOn = func(g, f int, seen map[int]bool) bool {
+		if seen[g] {
+			return false
+		}
+		seen[g] = true
+		for _, d := range deps[g] {
+			if d == f || dependsOn(d, f, seen) {
+				return true
+			}
+		}
+		return false
+	}
+	last := e.reqs
+	var cands []*fedRequest
+	for _, q := range last {
+		f := fetchOf(q)
+		if len(q.reps) == 0 || f < 0 {
+			continue
+		}
+		for _, g := range last {
+			if gf := fetchOf(g); gf >= 0 && gf != f && dependsOn(gf, f, map[int]bool{}) {
+				cands = append(cands, q)
+				break
+			}
+		}
+	}
+	if len(cands) == 0 {
+		return
+	}
+	r.Probe("hard_failure_candidates")
+	if !r.F.Prob(0.5) {
+		return
+	}
+	target := cands[r.F.Intn(len(cands))]
+	tf := fetchOf(target)
+	tkey := reqKey(target) + "|" + target.vars
+	r.Hist("---- hard failure of fetch %d (s%d #%d)", tf, target.sub, target.idx)
+	e.reqs, e.viol = nil, nil
+	var hit *fedRequest
+	typenameRe := regexp.MustCompile(`"__typename":"[A-Za-z0-9_]+"`)
+	e.corruptFn = func(q *fedRequest, body string) string {
+		if hit != nil || reqKey(q)+"|"+q.vars != tkey {
+			return body
+		}
+		loc := typenameRe.FindStringIndex(body)
+		if loc == nil {
+			return body
+		}
+		hit = q
+		r.Fault("unmergeable_answer")
+		return body[:loc[0]] + `"__typename":42` + body[loc[1]:]
+	}
+	execs, out := e.runOps(eng, []*fedOp{op}, func(o *fedOp) string { return o.Query }, func(int) []engine.ExecutionOptions {
+		return []engine.ExecutionOptions{engine.SimWithResolveContext(func(rc *resolve.Context) {
+			rc.ExecutionOptions.DisableSubgraphRequestDeduplication = true
+		})}
+	})
+	e.corruptFn = nil
+	if out == core.OutIdle {
+		r.Fail(prop, "wedge", "after-unmergeable-answer", "the request never returned after a subgraph answer that cannot be merged")
+	}
+	if out != core.OutDone || hit == nil {
+		return
+	}
+	if execs[0].err == nil || !strings.Contains(execs[0].err.Error(), "unable to merge results from subgraph") {
+		r.Probe("unmergeable_answer_tolerated")
+		return
+	}
+	r.Probe("hard_failure_runs")
+	for _, g := range e.reqs {
+		gf := fetchOf(g)
+		if g == hit || gf < 0 || g.issued <= hit.released {
+			continue
+		}
+		if dependsOn(gf, tf, map[int]bool{}) {
+			r.Fail(prop, "dependency", "issued-after-failed-dependency", "fetch %d (request #%d to s%d, issued at seq %d) depends on fetch %d, whose answer (request #%d, handed over at seq %d) could not be merged and failed the whole request: a request was issued although a result it reads was never merged\noperation: %s vars=%s\n%s", gf, g.idx, g.sub, g.issued, tf, hit.idx, hit.released, op.Query, op.Vars, e.describe())
+			return
+		}
+	}
 }
 
 // ------------------------------------------------------------------ C07
